@@ -261,6 +261,14 @@ class ExecBase:
             return [CLASS_ALIASES[last]]
         if last in s.unit.known_classes:
             return [last]
+        if isinstance(node, ast.Name) and s.func_stack:
+            # a tuple of classes hoisted to a module constant (see module_constant): resolve its defining expression syntactically
+            mod = source.load_module(s.func_stack[-1].module)
+            defs = [st for st in mod.tree.body if isinstance(st, ast.Assign) and len(st.targets) == 1 and isinstance(st.targets[0], ast.Name)
+                    and st.targets[0].id == node.id]
+            if len(defs) == 1 and isinstance(defs[0].value, ast.Tuple) and \
+                    not any(isinstance(n_, (ast.Global, ast.Nonlocal)) and node.id in n_.names for n_ in ast.walk(mod.tree)):
+                return s.resolve_class_names(p, defs[0].value)
         raise Unsupported(f"unknown class {src}")
 
     def isinstance_term(s, v, names):
@@ -337,7 +345,49 @@ class ExecBase:
             return SV(fresh("bi_" + name), builtin=name, **({"cls": name} if name in CLASS_PARENT else {}))
         if name in CLASS_PARENT or name in s.unit.known_classes:
             return SV(fresh("cls_" + name), cls=name)
+        if s.func_stack:
+            c = s.module_constant(name, p)
+            if c is not None:
+                return c
         raise Unsupported(f"unbound name {name} @ line {getattr(node, 'lineno', '?')}")
+
+    def module_constant(s, name, p):
+        """a module-level NAME = <literal / tuple / frozenset of literals, names and dotted names> assigned exactly once at top level and
+           never declared global anywhere: its defining expression is evaluated in place (hoisting a literal to a module constant is a
+           common harmless edit).  Assumes nobody rebinds module constants at run time."""
+        mod = source.load_module(s.func_stack[-1].module)
+        defs = [st for st in mod.tree.body if (isinstance(st, ast.Assign) and len(st.targets) == 1 and isinstance(st.targets[0], ast.Name)
+                                               and st.targets[0].id == name)
+                or (isinstance(st, ast.AnnAssign) and isinstance(st.target, ast.Name) and st.target.id == name and st.value is not None)]
+        if len(defs) != 1:
+            return None
+        if any(isinstance(n_, (ast.Global, ast.Nonlocal)) and name in n_.names for n_ in ast.walk(mod.tree)):
+            return None
+        val = defs[0].value
+        def pure(e):
+            if isinstance(e, ast.Constant):
+                return True
+            if isinstance(e, (ast.Tuple, ast.List, ast.Set)):
+                return all(pure(x) for x in e.elts)
+            if isinstance(e, ast.Attribute):
+                return pure(e.value) if not isinstance(e.value, ast.Name) else True
+            if isinstance(e, ast.Name):
+                return e.id != name
+            if isinstance(e, ast.Call) and isinstance(e.func, ast.Name) and e.func.id in ("frozenset", "tuple") and len(e.args) == 1 and not e.keywords:
+                return pure(e.args[0])
+            return False
+        if not pure(val):
+            return None
+        if isinstance(val, ast.Call):
+            val = val.args[0]              # frozenset((...)) / tuple([...]) of literals: membership and iteration as for the literal
+            if isinstance(val, (ast.List, ast.Set)):
+                val = ast.Tuple(elts=val.elts, ctx=ast.Load())
+        if isinstance(val, (ast.List, ast.Set)) :
+            return None                    # a mutable module-level container is state, not a constant
+        outs = s.ev(val, p)
+        if len(outs) != 1 or outs[0][0] != "ok":
+            return None
+        return outs[0][2]
 
     def e_JoinedStr(s, n, p):
         if not s.precise_strings:
